@@ -34,17 +34,20 @@ LEVEL_TEXT = ("Proved in Lean 4 about the executable model the driver runs (AslM
               "reference semantics; (2) array_refines_seq_partial - for EVERY finite history of the 36 protocol operations through six "
               "handles and clones in which no operation increases the capacity of a block whose rc > 1, every call result and every "
               "handle's (elements, rc()) equal the reference semantics 'handles -> shared sequences' and no access leaves live storage "
-              "(simulation with block-id renaming, rc = number of handles, no dangling handle); (3) lifecycle - in every such "
+              "(simulation with block-id renaming, rc = number of handles, no dangling handle); quicksort_total - the transcribed Hoare "
+              "quicksort of sort() never indexes outside its sequence and terminates, for every irreflexive <, so the refinement needs no "
+              "hypothesis about sort; (3) lifecycle - in every such "
               "reachable state live objects = total length of live blocks, and with the last handle gone no block and no object "
               "remains; (4) array_full_counterexample - without the hypothesis the statement is false (a=[]; b=a; a<<0<<1<<2<<3). "
               "The model is tied to the current source on every run by the correspondence check (real Array/Stack/Queue of int, String "
               "and a counted heap-payload type under ASan/LSan, all six handles compared after every operation) and an independent "
               "python reference.")
 LEVEL_NOTE = ("Partial: the refinement is stated under the decidable hypothesis AllSafe = 'no operation increases the capacity of a "
-              "block whose rc > 1' (known finding shared-growth; harness and model skip exactly those operations) and 'each sort call's "
-              "quicksort stays inside its sequence and within its fuel'; the sorted sequence of the reference semantics is defined by "
-              "the model's quicksort, so sortedness/permutation (quicksort_full) is NOT proved - only length preservation - and is "
-              "validated by K and the python sorted() oracle. Temporaries' rc++/rc-- pairs inside clone()/concat() are collapsed in the "
+              "block whose rc > 1' (known finding shared-growth; harness and model skip exactly those operations). The VALUE of sort(): the "
+              "sequence the reference semantics assigns to a sorted array is defined by the model's quicksort; proved about it: total and "
+              "in bounds (quicksort_total), a permutation of the same length (quicksort_perm_partial), equal to insertion sort for all "
+              "order patterns of up to 4 elements and all sequences of length <= 6 over 3 values (quicksort_small_exhaustive_partial); "
+              "sortedness for all inputs (quicksort_full) is NOT proved and is validated by K and the python sorted() oracle. Temporaries' rc++/rc-- pairs inside clone()/concat() are collapsed in the "
               "model. Trusted: Lean kernel, harness, generator; malloc/realloc/memmove as allocate-copy-release and bitwise relocation; "
               "the element types are trivially relocatable. The growth policy (3, 2s, max(2s,m)) is transcribed in the model and used "
               "for the skip decisions: a harmless change of it is reported as VIOLATION ... no-failing-input-found. New cells of "
